@@ -567,9 +567,46 @@ def r5_renderer_boundaries(ctx):
     cs = ctx.need(DIAG + "compute_line_starts")
     ctx.touch(cs)
     pushes = [c for c in cs.calls() if (c.callee or "").endswith("::push")]
+
+    def facts_at(block, depth=0):
+        """(text of a tested condition, outcomes) on every path to `block`; a named flag that is known true contributes what
+        made it true (`let is_crlf = a && b && c; if is_crlf {..}`: on the true side all of a, b, c held)."""
+        out = []
+        for S, al in cs.constraints(block):
+            d = cs.blocks[S]["t"]["d"]
+            out.append((collapse_memchr(sh(ne(cs.deep(d)))), al))
+            pl = (d.get("copy") or d.get("move")) if isinstance(d, dict) else None
+            if pl is None or pl["p"] or 0 in al or depth > 2 or cs.locals[pl["l"]]["ty"].strip() != "bool":
+                continue
+            root = pl["l"]
+            dd = cs.whole_defs(root)
+            if len(dd) == 1 and dd[0][1] != "t" and dd[0][2]["rv"]["k"] == "use" and isinstance(dd[0][2]["rv"]["a"], dict) and (dd[0][2]["rv"]["a"].get("copy") or dd[0][2]["rv"]["a"].get("move")):
+                root = (dd[0][2]["rv"]["a"].get("copy") or dd[0][2]["rv"]["a"].get("move"))["l"]
+                dd = cs.whole_defs(root)
+            live_defs = [(bd, kd, sd) for (bd, kd, sd) in dd if not (kd != "t" and sd["rv"]["k"] == "use" and isinstance(sd["rv"]["a"], dict) and sd["rv"]["a"].get("int") == 0)]
+            if len(dd) > 1 and len(live_defs) == 1 and live_defs[0][1] != "t":
+                bd, kd, sd = live_defs[0]
+                out.append((collapse_memchr(sh(ne(cs.deep_rvalue(sd["rv"])))), [1]))
+                out += facts_at(bd, depth + 1)
+        return out
+    alternatives = 0
+    expanded = []
     for c in pushes:
-        t = collapse_memchr(sh(ne(cs.deep(c.args[1]))))
-        raw = sh(ne(cs.deep(c.args[1])))
+        pl = (c.args[1].get("copy") or c.args[1].get("move")) if isinstance(c.args[1], dict) else None
+        defs = cs.whole_defs(pl["l"]) if pl is not None and not pl["p"] else []
+        # through one plain copy to a variable assigned in several arms (`let next_start = if crlf { idx + 2 } else { idx + 1 }`)
+        if len(defs) == 1 and defs[0][1] != "t" and defs[0][2]["rv"]["k"] == "use" and isinstance(defs[0][2]["rv"]["a"], dict) and (defs[0][2]["rv"]["a"].get("copy") or defs[0][2]["rv"]["a"].get("move")) and not (defs[0][2]["rv"]["a"].get("copy") or defs[0][2]["rv"]["a"].get("move"))["p"]:
+            d2 = cs.whole_defs((defs[0][2]["rv"]["a"].get("copy") or defs[0][2]["rv"]["a"].get("move"))["l"])
+            if len(d2) > 1:
+                defs = d2
+        if len(defs) > 1 and all(kd != "t" for (_bd, kd, _sd) in defs):
+            for (bd, kd, sd) in defs:
+                expanded.append((c, sh(ne(cs.deep_rvalue(sd["rv"]))), bd))
+        else:
+            expanded.append((c, sh(ne(cs.deep(c.args[1]))), c.block))
+    for c, raw, at_block in expanded:
+        alternatives += 1
+        t = collapse_memchr(raw)
         needles_ok = all(int(x) < 128 for pair in re.findall(r"memchr2\((\d+),(\d+),", raw) for x in pair) and ("memchr" not in raw or re.search(r"memchr2\(\d+,\d+,", raw))
         ordn = sum(1 for r in ctx.records if r["rule"] == ctx.rule and r["instance"].startswith("line-start|%s" % t))
         key = "line-start|%s#%d" % (t, ordn + 1)
@@ -578,14 +615,14 @@ def r5_renderer_boundaries(ctx):
         elif t == "Add(M,1)" and needles_ok:
             ctx.ok(key, cs.where(c.block), "one past an ASCII terminator found by memchr2")
         elif t == "Add(M,2)" and needles_ok:
-            facts = [(collapse_memchr(sh(ne(cs.deep(cs.blocks[S]["t"]["d"])))), al) for S, al in cs.constraints(c.block)]
+            facts = facts_at(at_block)
             if any(re.match(r"^Eq\(src\[Add\(M,1\)\],(10|13)\)$", f) and 0 not in al for f, al in facts):
                 ctx.ok(key, cs.where(c.block), "two past the terminator, under src[idx+1] == LF")
             else:
                 ctx.bad("line-start|Add(M,2)|unchecked", cs.where(c.block), "a line start is recorded two bytes after a terminator without testing that the byte after it is an ASCII terminator too: it can fall inside a multi-byte character")
         else:
             ctx.bad("line-start|%s" % t[:40], cs.where(c.block), "a line start `%s` is not 0 or one/two past an ASCII line terminator located by memchr2" % raw[:80])
-    ctx.floor("line-start pushes", len(pushes), 4)
+    ctx.floor("line-start pushes", alternatives, 3)
     # spans are not computed outside the scanner: resolver, analyses, runtime and renderer only copy them (the parser is R3)
     m = 0
     for fn in ctx.lib.fns.values():
@@ -858,6 +895,14 @@ def r5b_renderer_indexes_stay_inside(ctx):
                     clo = [g for g in ctx.lib.closures_of(fn.id)]
                     if any(re.search(r"Sub\w*\(", g.dump()) for g in clo):
                         verdict = "ok"
+                if verdict != "ok":
+                    # the same search written as a `match`: Ok(i) is an index of the table, Err(x) an insertion point that is
+                    # lowered by one
+                    alts = [sh(ne(a)).replace(" ", "") for a in fn.alt_exprs(t["ops"][1], 6)]
+                    pat_ok = re.compile(r"^binary_search\(%s,.*\)@Ok\.0$" % re.escape(arr))
+                    pat_err = re.compile(r"^Sub\w*\(binary_search\(%s,.*\)@Err\.0,1\)$" % re.escape(arr))
+                    if len(alts) >= 2 and all(pat_ok.match(a) or pat_err.match(a) for a in alts) and any(pat_ok.match(a) for a in alts):
+                        verdict = "ok"
                 if verdict != "ok" and "memchr" in dtxt:
                     # a search result: in bounds once it differs from the length
                     for op, a, bb, S in facts:
@@ -907,7 +952,7 @@ def r5d_the_line_table_and_its_scan_agree(ctx):
             ctx.ok(key + "#%d" % n, fn.where(c.block), "records %s and resumes there" % pushed)
         else:
             ctx.bad(key + "|resumes-at|%s" % re.sub(r"memchr2\([^)]*\)", "idx", str(resumed))[:20], fn.where(c.block), "compute_line_starts records a line start at `%s` but resumes its search at `%s`: the same line break is found again and the line start recorded twice (every diagnostic of a CRLF source is shown on the wrong line), or a line break is skipped" % (pushed, resumed))
-    ctx.floor("line starts recorded by compute_line_starts", n, 3)
+    ctx.floor("line starts recorded by compute_line_starts", n, 1)
 
 
 def r5c_renderer_slices_run_forward(ctx):
@@ -987,10 +1032,25 @@ def r13_type_pre_inference_runs_a_counted_number_of_rounds(ctx):
     `nothing changed` test."""
     from .c03 import natural_loop
     n = 0
+    # the routine that drives the rounds, and private helpers carved out of it (all of whose callers are the routine or such a
+    # helper): a call of one of them stands for the inference it performs
+    INF = "resolver::Resolver::infer_function_return_type"
+    PRE = "resolver::Resolver::predeclare_block_functions"
+    inner = {INF}
+    for _ in range(3):
+        for fid, fn in ctx.lib.fns.items():
+            if fn.file != "src/resolver.rs" or "{closure" in fid or fid in inner or fid == PRE:
+                continue
+            if any(c.callee in inner for c in fn.calls()):
+                callers = {parent_fn(c.fn.id) for c in ctx.lib.callers_of(fid)}
+                if callers and callers <= ({PRE} | inner):
+                    inner.add(fid)
     for fid, fn in sorted(ctx.lib.fns.items()):
         if fn.file != "src/resolver.rs":
             continue
-        calls = [c for c in fn.calls() if (c.callee or "").endswith("Resolver::infer_function_return_type")]
+        if parent_fn(fid) != PRE and parent_fn(fid) not in inner:
+            continue
+        calls = [c for c in fn.calls() if c.callee in inner]
         if not calls:
             continue
         ctx.touch(fn)
@@ -1027,6 +1087,101 @@ def r14_the_preflight_bounds_what_the_analyses_allocate(ctx):
     from .c18 import r2b_derived_bounds_shape, r7_bit_sets_are_sized_in_words
     r2b_derived_bounds_shape(ctx)
     r7_bit_sets_are_sized_in_words(ctx)
+
+
+def r15_the_renderer_can_copy_any_character(ctx):
+    """Rendering a diagnostic copies the quoted source line character by character (expand_tabs -> ArenaString::push): the
+    encode buffer has to hold four bytes, or any diagnostic - a mere warning - on a line with an emoji panics and a valid
+    program is not run.  Shared with C13-R6 (encode buffers)."""
+    from .c13 import encode_buffers
+    encode_buffers(ctx)
+
+
+def r16_formatting_a_token_terminates(ctx):
+    """Diagnostics name the offending token through its Display impl.  An arm of that impl that formats `self` with `{self}`
+    calls itself: the message for a token that reaches the arm (a reserved word without an arm of its own) recurses until the
+    native stack overflows.  Decided on the call graph: the token / diagnostic formatting routines of the front end are not on
+    a cycle."""
+    cg = ctx.lib.callgraph()
+    n = 0
+    for fid, fn in sorted(ctx.lib.fns.items()):
+        if not (fn.file in ("src/syntax/token.rs", "src/diagnostics.rs") and ("fmt::Display" in fid or "fmt::Debug" in fid)) or "{closure" in fid:
+            continue
+        n += 1
+        ctx.touch(fn)
+        seen, st = set(), list(cg.get(fid, {}))
+        cyc = False
+        while st:
+            x = st.pop()
+            if x == fid:
+                cyc = True
+                break
+            if x in seen or x not in ctx.lib.fns:
+                continue
+            seen.add(x)
+            st.extend(cg.get(x, {}))
+        if cyc:
+            ctx.bad("format-recursion|%s" % fid.split(" as ")[0].lstrip("<").split("::")[-1], fn.where(), "%s can call itself (an arm formats `self` with its own Display): naming such a token in a diagnostic overflows the native stack instead of reporting" % fid)
+        else:
+            ctx.ok("format-terminates|%s#%d" % (fid.split(" as ")[0].lstrip("<").split("::")[-1], n), fn.where(), "not on a call cycle")
+    ctx.floor("formatting routines of tokens and diagnostics", n, 1)
+
+
+def r17_the_count_pass_ends_blocks_where_the_lowering_does(ctx):
+    """The CFG is built in two passes that must agree on the number of blocks (a debug assertion, and the sizing of the tables):
+    the counting pass ends the current block after `comot` / `next` whether or not a loop surrounds them, exactly as the
+    lowering does - a stray jump is diagnosed by the checker, not by a panic of the CFG builder."""
+    from .c02 import _dispatch_arm
+    fn = ctx.lib.fns.get("analysis::cfg::CountFunctionBuilder::count_stmt")
+    if fn is None:
+        return
+    ctx.touch(fn)
+    n = 0
+    for kind in ("Break", "Continue"):
+        arm = None
+        if True:
+            # (also for an or-pattern arm) the region reached from this variant's edge
+            for S in sorted(fn.live):
+                if fn.blocks[S]["t"]["k"] == "switch":
+                    si = fn.switch_info(S)
+                    if si["kind"] == "discr" and si["ty"].endswith("parser::Stmt"):
+                        for lab, tgt in fn.succ[S]:
+                            if kind in label_names(fn, S, [lab], si):
+                                arm = fn.reach([tgt], removed_nodes=[S])
+                        break
+        if not arm:
+            continue
+        aggs = [st for b in sorted(arm) for st in fn.blocks[b]["s"] if st["rv"]["k"] == "agg" and str(st["rv"].get("adt", "")).endswith("CountCursor")]
+        # only the aggregates that belong to this arm alone (before the arms join)
+        own = [st for b in sorted(arm) for st in fn.blocks[b]["s"] if st["rv"]["k"] == "agg" and str(st["rv"].get("adt", "")).endswith("CountCursor") and any(kind in label_names(fn, S2, al, fn.switch_info(S2)) for S2, al in fn.constraints(b) if fn.switch_info(S2)["kind"] == "discr")]
+        for st in own or aggs[:1]:
+            n += 1
+            v = st["rv"]["ops"][0]
+            if isinstance(v, dict) and v.get("int") == 0:
+                ctx.ok("count-pass|%s|ends-block" % kind, fn.where(), "has_block = false after the jump")
+            else:
+                ctx.bad("count-pass|%s|block-continues|%s" % (kind, sh(ne(fn.deep(v, 6)))[:20]), fn.where(), "the counting pass lets the current block continue after `%s` when `%s`, while the lowering always ends it: the two passes disagree on the number of blocks and the checker panics (`Count pass and CFG lowering should agree`) on a stray jump followed by another statement, instead of reporting it" % ("comot" if kind == "Break" else "next", sh(ne(fn.deep(v, 6)))[:40]))
+    ctx.floor("jump arms of the counting pass", n, 1)
+
+
+def r18_marker_widths_are_measured_in_columns(ctx):
+    """The caret line and the label underline are as wide as the flagged text *looks*: both counts come from visual_col (tab
+    stops, display width), never from a byte length - or the underline is longer than the carets by one column per extra byte
+    of every non-ASCII character in the span."""
+    fn = ctx.need(DIAG + "render_diagnostic")
+    ctx.touch(fn)
+    n = 0
+    for c in fn.calls():
+        if not (c.callee or "").endswith("::render_label_line") or len(c.args) < 3:
+            continue
+        for i in (1, 2):
+            t = sh(ne(fn.deep(c.args[i], 12)))
+            n += 1
+            if "visual_col(" in t or (i == 1 and re.search(r"line_col_in\(.*\)\.1$", t)):
+                ctx.ok("marker-width|label-line|arg%d#%d" % (i, n), fn.where(c.block), "measured with visual_col")
+            else:
+                ctx.bad("marker-width|label-line|arg%d|%s" % (i, re.sub(r"\(.*", "", t)[:16]), fn.where(c.block), "render_diagnostic sizes a label marker with `%s`, not with visual_col: for a span that contains non-ASCII characters the underline and the carets have different widths" % t[:60])
+    ctx.floor("marker widths of label lines", n, 2)
 
 
 def r10_front_end_memory_is_linear(ctx):
@@ -1212,7 +1367,7 @@ def r11_search_offsets_are_added_to_the_base_they_were_found_from(ctx):
     ctx.floor("search offsets turned into positions", n, 2)
 
 
-RULES = [("C07-R1", r1_cursor_discipline), ("C07-R2", r2_unchecked_reslicing), ("C07-R2b", r2b_byte_reads_in_bounds), ("C07-R2c", r2c_template_reads_in_bounds), ("C07-R5", r5_renderer_boundaries), ("C07-R5c", r5c_renderer_slices_run_forward), ("C07-R5d", r5d_the_line_table_and_its_scan_agree), ("C07-R10c", r10c_a_diagnostic_costs_its_own_text), ("C07-R13", r13_type_pre_inference_runs_a_counted_number_of_rounds), ("C07-R14", r14_the_preflight_bounds_what_the_analyses_allocate),
+RULES = [("C07-R1", r1_cursor_discipline), ("C07-R2", r2_unchecked_reslicing), ("C07-R2b", r2b_byte_reads_in_bounds), ("C07-R2c", r2c_template_reads_in_bounds), ("C07-R5", r5_renderer_boundaries), ("C07-R5c", r5c_renderer_slices_run_forward), ("C07-R5d", r5d_the_line_table_and_its_scan_agree), ("C07-R10c", r10c_a_diagnostic_costs_its_own_text), ("C07-R13", r13_type_pre_inference_runs_a_counted_number_of_rounds), ("C07-R14", r14_the_preflight_bounds_what_the_analyses_allocate), ("C07-R15", r15_the_renderer_can_copy_any_character), ("C07-R16", r16_formatting_a_token_terminates), ("C07-R17", r17_the_count_pass_ends_blocks_where_the_lowering_does), ("C07-R18", r18_marker_widths_are_measured_in_columns),
          ("C07-R3", r3_parser_position_free), ("C07-R3b", r3b_parser_spans_are_ordered), ("C07-R4", r4_recovery_progress), ("C07-R8", r8_local_ranges_cover_ids), ("C07-R9", r9_bitset_indexes_agree), ("C07-R5b", r5b_renderer_indexes_stay_inside), ("C07-R10", r10_front_end_memory_is_linear), ("C07-R12", r12_checker_indexes_follow_a_length_test), ("C07-R11", r11_search_offsets_are_added_to_the_base_they_were_found_from)]
 
 EXPLANATION = (
@@ -1250,4 +1405,7 @@ EXPLANATION += (
 )
 EXPLANATION += (
     ' Round 6: R5c every `src[a..b]` of the renderer is cut between positions whose order the locator guarantees (line start <= span start <= min(span end, line end) <= line end). R10c (known finding D48): the whole source line is copied per diagnostic. R13: the rounds of return-type pre-inference are counted. R14 shares C18-R2b / R7 (the preflight estimate and the bit-set allocation count in the same unit).'
+)
+EXPLANATION += (
+    ' Round 7: R15 shares C13-R6 (encode buffers); R16 the Display / Debug routines of tokens and diagnostics are not on a call cycle; R17 the counting pass of the CFG ends the current block after `comot` / `next` unconditionally, like the lowering; R18 label marker widths come from visual_col.'
 )
